@@ -8,6 +8,8 @@ pub mod verif {
     pub mod cli;
     pub mod graph;
     pub mod hooks;
+    pub mod inc_config;
+    pub mod projset;
     pub mod prop;
     pub mod report;
     pub mod sim;
